@@ -70,6 +70,10 @@ pub fn c17(h: &mut H) {
     let mut pairs: Vec<(Integer, Integer)> = k.bases.iter().map(|a| (a.clone(), b.clone())).collect();
     pairs.extend(gs.iter().map(|g| (g.clone(), hh.clone())));
     // attacker computations of the property on everything a prover sends
+    let mut memo: std::collections::HashMap<(Integer, Integer), Integer> = std::collections::HashMap::new();
+    let mut pm = move |b: &Integer, e: &Integer, n: &Integer| -> Integer {
+        memo.entry((b.clone(), e.clone())).or_insert_with(|| powm(b, e, n)).clone()
+    };
     let mut run = |h: &mut H, what: &str, proof: &Value, secrets: &[(String, Integer)], v_sig: Option<&Integer>, id: u64| {
         let mut cs = Vec::new();
         commitments(proof, String::new(), &mut cs);
@@ -80,7 +84,7 @@ pub fn c17(h: &mut H) {
             // (1) the embedded randomness must not open the commitment to any secret under any public base pair
             for (g, hb) in &pairs {
                 for (sn, x) in secrets {
-                    let open = Integer::from(powm(g, x, n) * powm(hb, rnd, n)) % n;
+                    let open = Integer::from(pm(g, x, n) * pm(hb, rnd, n)) % n;
                     h.expect(open != *value, "C17.opening_embedded", &format!("{}: {} opens to secret {} with the randomness sent next to it", what, path, sn), &[id]);
                 }
             }
@@ -91,14 +95,14 @@ pub fn c17(h: &mut H) {
                 }
                 for (g, hb) in &pairs {
                     for (sn, x) in secrets.iter().take(4) {
-                        let open = Integer::from(powm(g, x, n) * powm(hb, leaf, n)) % n;
+                        let open = Integer::from(pm(g, x, n) * pm(hb, leaf, n)) % n;
                         h.expect(open != *value, "C17.opening_leaf", &format!("{}: {} opens to {} with field {}", what, path, sn, lp), &[id]);
                     }
                 }
                 // (3) value * g^(-leaf) must not be v
                 if let Some(v) = v_sig {
                     for g in gs.iter().chain(k.bases.iter()) {
-                        let rec = Integer::from(value * powm(g, &Integer::from(-leaf), n)) % n;
+                        let rec = Integer::from(value * pm(g, &Integer::from(-leaf), n)) % n;
                         h.expect(rec != *v, "C17.recover_v", &format!("{}: signature component v recovered as {} * g^(-{})", what, path, lp), &[id]);
                     }
                 }
@@ -115,9 +119,9 @@ pub fn c17(h: &mut H) {
                 for (_lp, leaf) in &lv {
                     if *leaf < 0 { continue; }
                     for (g, hb) in &pairs {
-                        let hr = powm(hb, leaf, n);
-                        if Integer::from(powm(g, x, n) * &hr) % n == *value { hit_true = true; }
-                        if Integer::from(powm(g, &decoy, n) * &hr) % n == *value { hit_decoy = true; }
+                        let hr = pm(hb, leaf, n);
+                        if Integer::from(pm(g, x, n) * &hr) % n == *value { hit_true = true; }
+                        if Integer::from(pm(g, &decoy, n) * &hr) % n == *value { hit_decoy = true; }
                     }
                 }
             }
